@@ -2487,6 +2487,22 @@ def c18_checks(repo: Repo, tier: str, res: CheckResult, seed: int) -> None:
             return _style_oracle(name, oracle.get("style"))
 
         sides = {k: r.get(k) for k in ("loader", "dumper") if k in r}
+        if r["provider"] == "value":
+            for side, out in sides.items():
+                qual = f"EnumValueProvider._make_{side}"
+                if "error" in out:
+                    report("TABLE.creation-failed", qual, f"{ident}: {out['error'][:80]}",
+                           f"creating the by-value {side} of {cls} fails: {out['error']}")
+                elif out.get("is_value_codec"):
+                    n_tables += 1
+                    report("TABLE.value-codec-handed-out-bare", qual, f"{ident}: the {side} of the value type itself",
+                           f"enum_by_value({cls}, tp={r['cfg']}): the {side} handed out IS the {side} of the value type: the dumper then "
+                           "receives the member instead of member.value (the builtin int / str dumpers return their argument as it is, "
+                           "so dump(m) is the member itself, which the strict loader of the value type rejects), the loader returns the "
+                           "plain value instead of the member")
+                else:
+                    n_tables += 1
+            continue
         if r["provider"] == "flag_exact":
             ints = [m[3] for m in members]
             mask = 0
